@@ -6,6 +6,7 @@ import os
 import common
 import conc
 import net_sync as N
+import twophase
 
 CAPS3 = [[6, 8], [6, 8], [6, 8]]
 CAPS2 = [[6, 8], [6, 8]]
@@ -203,6 +204,97 @@ def judge(res, scn, seqs):
             "c03_judged": all_done and v3["applicable"]}
 
 
+LP_TAGS = {"listed-class": "lockpoint_runs_in_a_listed_trigger_class", "unattributed": "lockpoint_runs_with_unattributed_lock_events",
+           "not-legal": "lockpoint_runs_not_legal", "not-two-phase": "lockpoint_runs_not_two_phase",
+           "lockpoint": "lockpoint_order_matches", "other": "other_order_matches"}
+LP_OTHER = []          # serializable two-phase runs that are NOT explained by the sequential run in lock-point order
+LP_SCHEDS = []         # (python lock schedule, python lock order) of runs with a prediction: tied to Coq's lock_order below
+
+
+def listed_trigger(a):
+    """the run lies in the trigger class of a listed finding whether or not it failed (same tests as conc.classify)"""
+    trig = [t for t in a["timeouts"] if t["pending_nodes"]]
+    if trig and (a["foreign_releases"] or a["orphan_acquired"] or a["orphans_pending"]):
+        return "D6"
+    if conc.shared_consumed_handles(a["ops"]):
+        return "D23"
+    return None
+
+
+def lockpoint_check(ctx, scn, res, j, a):
+    """Conc/TwoPhase.v predicts WHICH sequential order explains a two-phase run: the order of the last lock acquisitions.  Counted for
+    every completed run the independent oracle found serializable; never replaces that oracle."""
+    if not (j["c03_judged"] and j["v3"]["ok"]):
+        return
+    tag, lo = twophase.verdict(res, scn, j["v3"]["orders"], listed_trigger(a))
+    ctx.count(LP_TAGS[tag])
+    if tag in ("lockpoint", "other"):
+        ctx.count("lockpoint_runs_two_phase_with_prediction")
+        if len(lo) >= 2:
+            ctx.count("lockpoint_predictions_ordering_two_or_more_operations")
+        if len(j["v3"]["orders"]) < _nperm(len(scn["ops"])):
+            ctx.count("lockpoint_runs_where_not_every_order_matches")
+            if tag == "lockpoint":
+                ctx.count("lockpoint_order_matches_where_not_every_order_matches")
+        if len(LP_SCHEDS) < 400:
+            LP_SCHEDS.append((twophase.lock_schedule(res.trace), lo))
+    if tag == "other" and len(LP_OTHER) < 40:
+        LP_OTHER.append({"scenario": scn["name"], "ops": scn["ops"], "prefix": scn["prefix"], "seed": res.seed, "lock_point_order": lo,
+                         "matching_orders": j["v3"]["orders"], "results": [list(r) for r in res.results],
+                         "lock_schedule": [list(e) for e in twophase.lock_schedule(res.trace)]})
+
+
+def lockpoint_scenarios():
+    """the footprint of a destructive measurement is NOT covered by node locks: `self.virtNode.root.virtQubits.remove(self)`
+    (virtual.py:1377) runs at the node holding the handle under the lock of the SIMULATING node only.  A creation / arrival at the
+    holding node (which does hold that node's lock) sees the slot free or not depending on the moment of the removal, not on the lock
+    points: serializable, but not always in lock-point order."""
+    out = []
+    p = P([[6, 8], [2, 8]]); x = p.new(0); x1 = p.send(x, 1); p.new(1)
+    out.append(p.scn("destructive measurement through a remote handle racing with a creation for the slot it frees",
+                     [("meas", x1, 0), ("new", 1)], {str(x): [1]}))
+    p = P([[6, 8], [2, 8], [6, 8]]); x = p.new(0); x1 = p.send(x, 1); p.new(1); z = p.new(2)
+    out.append(p.scn("destructive measurement through a remote handle racing with an arrival for the slot it frees",
+                     [("meas", x1, 0), ("send", z, 1)], {str(x): [1]}))
+    return out
+
+
+def lockpoint_report(ctx, pid):
+    """(a) obligation: the predicted order is Coq's `lock_order` of the recorded lock schedule, which Coq finds legal and two-phase
+    (TwoPhase.sched_report_sound); (b) NO obligation on the comparison itself: coverage of the footprint by node locks is an assumption
+    about the code that does not hold everywhere (lockpoint_scenarios), so the counts are evidence, and the runs that are serializable in
+    another order are written to replays/ for inspection."""
+    if LP_OTHER:
+        os.makedirs(os.path.join(common.VERIF, "replays"), exist_ok=True)
+        with open(os.path.join(common.VERIF, "replays", "%s-not-in-lock-point-order.json" % pid), "w") as fh:
+            json.dump(LP_OTHER, fh, indent=1)
+        o = LP_OTHER[0]
+        ctx.sample({"serializable_but_not_in_lock_point_order": o["scenario"], "ops": o["ops"], "lock_point_order": o["lock_point_order"],
+                    "matching_orders": o["matching_orders"], "results": o["results"]})
+    if not LP_SCHEDS:
+        return
+    text = (common.CASE_HEADER + "From SQ Require Import Base.ListUtil Conc.Model Conc.TwoPhase.\n"
+            "Definition scheds : list (list event) := [\n" + ";\n".join(twophase.coq_sched(sc) for sc, _ in LP_SCHEDS)
+            + "\n].\nEval vm_compute in (flat_map sched_report scheds).\n")
+    ok, out = common.coq_eval(text, tag="lockpoint")
+    lists = common.parse_nat_lists(out) if ok else []
+    want = []
+    for _, lo in LP_SCHEDS:
+        want += [1, 1] + list(lo) + [999]
+    good = ok and len(lists) == 1 and lists[0] == want
+    ctx.count("lock_schedules_checked_by_coq", len(LP_SCHEDS))
+    ctx.obligation("the lock-point order the harness predicts is TwoPhase.lock_order of the recorded lock schedule, and Coq finds that "
+                   "schedule legal and two-phase (%d schedules)" % len(LP_SCHEDS), good,
+                   "" if good else (out[-600:] if not ok else "python and Coq disagree on legal / two_phase / lock_order of a recorded schedule"))
+
+
+def _nperm(n):
+    r = 1
+    for i in range(2, n + 1):
+        r *= i
+    return r
+
+
 def replay_obj(scn, res, j):
     return {"scenario": scn, "seed": res.seed, "schedule": res.schedule, "results": [list(r) for r in res.results],
             "hung": j["v4"]["hung"], "locks_held_at_end": [list(x) for x in j["v4"]["locks"]], "virtual_seconds": round(res.elapsed, 3),
@@ -295,6 +387,7 @@ def explore(ctx, pid, scenarios, per_scn, env, cases=None):
                     ctx.count("serializable_runs")
             if not j["c04_fail"]:
                 ctx.count("runs_complete_and_lock_free")
+            lockpoint_check(ctx, scn, res, j, a)
             ctx.case((json.dumps(scn["ops"]), json.dumps(scn["prefix"]), tuple(map(tuple, res.schedule[:60]))), nontrivial=len(res.schedule) > 0)
             failed = j["c03_fail"] if pid == "C03" else j["c04_fail"]
             if failed:
@@ -396,6 +489,11 @@ def run_property(ctx, pid):
     f1, r1 = explore(ctx, pid, fixed, per_fixed, env, cases)
     rnd = [random_scenario(ctx.rng, i) for i in range(nrand)]
     f2, r2 = explore(ctx, pid, rnd, per_rand, env, cases)
+    # after everything else, so that the scheduler seeds of the scenarios above stay what they were
+    f3, r3 = explore(ctx, pid, lockpoint_scenarios(), per_fixed, env, cases)
+    for k, v in f3.items():
+        f2.setdefault(k, v)
+    r2 = r2 + r3
     if thorough and len(cases) > 3000:
         cases = [cases[i] for i in sorted(ctx.rng.sample(range(len(cases)), 3000))]
     bad_tie = tie_model_l(ctx, cases)
@@ -406,6 +504,7 @@ def run_property(ctx, pid):
     ctx.obligation("oracle %s: every explored schedule outside the listed trigger classes is %s"
                    % (pid, "serializable" if pid == "C03" else "complete and leaves no lock held"), not unlisted,
                    "; ".join(unlisted))
+    lockpoint_report(ctx, pid)
     for (scn, res, j) in (r1 + r2)[:2]:
         ctx.sample({"scenario": scn["name"], "ops": scn["ops"], "schedule_head": res.schedule[:12], "results": [list(r) for r in res.results],
                     "matching_orders": j["v3"]["orders"]})
